@@ -225,6 +225,10 @@ udp_pipe_close(void *arg)
 	udp_ep   *ep = p->ep;
 	nni_aio  *aio;
 
+	if (ep == NULL) {
+		// pipe_create failed before udp_pipe_start attached us
+		return;
+	}
 	nni_mtx_lock(&ep->mtx);
 	udp_remove_pipe(p);
 	udp_send_disc(ep, p, DISC_CLOSED);
@@ -243,6 +247,9 @@ udp_pipe_stop(void *arg)
 
 	udp_pipe_close(arg);
 
+	if (ep == NULL) {
+		return;
+	}
 	nni_mtx_lock(&ep->mtx);
 	udp_remove_pipe(p);
 	nni_mtx_unlock(&ep->mtx);
